@@ -97,7 +97,7 @@ pub fn mov_units(name: &'static str, tier: Tier, seed: u64) -> Vec<Unit> {
         let uses_areg = matches!(shape.mode, Mode::Ind | Mode::Inc | Mode::D16 | Mode::D24);
         let na: u8 = if uses_areg { 8 } else { 1 };
         let vals = small_vals(sz);
-        let dom = format!("all {} data registers x {} address registers x {} values x K4 CCR (overlapping +/- pairs left open as the quantifier says)", nd, na, vals.len());
+        let dom = format!("all {} data registers x {} address registers x upper address byte {{5a, a5, ff}} x {} values x K4 CCR (overlapping +/- pairs left open as the quantifier says)", nd, na, vals.len());
         units.push(Unit::new(&format!("{}/R", name), nd as u64, &dom, move |ctx, chunk| {
             let regs = dom::background_regs();
             let dreg = chunk as u8;
@@ -121,11 +121,17 @@ pub fn mov_units(name: &'static str, tier: Tier, seed: u64) -> Vec<Unit> {
                     Mode::D24 => f.data = 0xfffefe,
                     _ => {}
                 }
-                let base = base_for(&shape, ea, f.data, 0x5a);
-                for &v in vals.iter() {
-                    for &ccr in &K4 {
-                        let c = build_case(&ctx.isa, row, &f, &shape, base, v, if shape.load { Some(ea) } else { None }, dom::CODE_RAM, ccr, &regs);
-                        ctx.run(&c);
+                // upper byte of the address register: every bit both ways (it takes no part in addressing)
+                for top in [0x5au8, 0xa5, 0xff] {
+                    if !uses_areg && top != 0x5a {
+                        continue;
+                    }
+                    let base = base_for(&shape, ea, f.data, top);
+                    for &v in vals.iter() {
+                        for &ccr in &K4 {
+                            let c = build_case(&ctx.isa, row, &f, &shape, base, v, if shape.load { Some(ea) } else { None }, dom::CODE_RAM, ccr, &regs);
+                            ctx.run(&c);
+                        }
                     }
                 }
             }
